@@ -938,8 +938,16 @@ public:
 	{
 		return ::mpt::unused(generic());
 	}
-	inline bool swap(long p1, long p2) const
+	inline bool swap(long p1, long p2)
 	{
+		long len = this->length();
+		if (p1 < 0 || p2 < 0 || p1 >= len || p2 >= len) {
+			return false;
+		}
+		/* need private copy of shared pointers */
+		if (!this->detach()) {
+			return false;
+		}
 		return ::mpt::swap(generic(), p1, p2);
 	}
 };
